@@ -5,6 +5,10 @@ import json, subprocess
 BASELINE = json.load(open('/root/.vp/BASELINE.json'))['cmd']
 
 CHECKS = {
+ "C17": dict(level="exploration", design="DESIGN.md §4 C17",
+   text="The contracts of the eight built-ins are checked on every element of finite argument alphabets: toa against write for 57 values of every kind and nesting, aton(toa(n)) == n for boundary ints and 210 finite floats, fromto over all pairs in -3..3 and at both ends of the int range, elems/indices (alone and zipped) over every array and string of length 0..4, wrong kinds and arities, and - through the built binary - every stdin of up to 3 lines (with and without final line break) against 0..4 read() calls in -eval and file mode, plus exit() with valid and invalid arguments.",
+   note="Expected results are computed by the reference model's value rendering and the stated contracts; argument values outside the alphabets are not covered.",
+   technique="exhaustive enumeration of finite argument and input-history alphabets against the stated contracts"),
  "C16": dict(level="model_checking", design="DESIGN.md §4 C16",
    text="(a) Explicit-state search over every sequence of up to 5 (6) script lines from a 19-line alphabet (block openers/closers/else, array literals and strings split over lines, strings and comments containing every delimiter, escaped quotes and backslashes, blank lines) fed to the real read-eval loop through the real file reader (with and without final newline) and a REPL-style line reader with a recording parser; the inputs handed to the parser must equal, token for token, the statements a lexer-aware splitter finds. (b) Every script of up to 3 (4) statements from a 24-statement alphabet run through the built binary in -eval (single statements), piped-REPL and file mode; each mode's output must equal what in-process statement-by-statement execution predicts.",
    note="The splitter model and the in-process expected output are harness side; ill-formed line sequences are skipped and counted; runtime error reports are compared on their first line.",
